@@ -152,6 +152,77 @@ pub fn run_spaces(prop: &str, spaces: Vec<Space>, opts: &Opts, rep: &Report) {
     }
 }
 
+/// Long pending lists of small operations (well below the one-megabyte threshold, well above any
+/// plausible count threshold): replica 0 holds 1500 unsent operations on 500 tasks, replica 1
+/// 1200 on 400 tasks of which 300 are shared (conflicting creates, same-property updates with
+/// earlier / later timestamps, a deletion against updates). Both rebases are then 10^3 x 10^3.
+/// Oracle: quiescence, identical replicas, chain replay - and the state the reference model
+/// gives for the same operations applied in the order the server stored them.
+fn many_small_operations(rep: &Report) {
+    use taskchampion::Operation;
+    let t = |i: u32| uuid::Uuid::from_u128(0x7A5C_0000_0000_0000_0000_0000_0001_0000u128 + i as u128);
+    let up = |i: u32, p: &str, v: &str, secs: i64| Operation::Update { uuid: t(i), property: p.into(), old_value: None, value: Some(v.into()), timestamp: ts(secs) };
+    for order in [[0usize, 1], [1, 0]] {
+        let mut w = World::new(2);
+        let mut a = vec![];
+        for i in 0..500u32 {
+            a.push(Operation::Create { uuid: t(i) });
+            a.push(up(i, "p", "fromA", 2));
+            a.push(up(i, "q", "onlyA", 2));
+        }
+        let mut b = vec![];
+        for i in 200..600u32 {
+            b.push(Operation::Create { uuid: t(i) });
+            // earlier than A's on the lower half of the overlap, later on the upper half
+            b.push(up(i, "p", "fromB", if i < 350 { 1 } else { 3 }));
+            if i % 50 == 0 {
+                b.push(Operation::Delete { uuid: t(i), old_task: Default::default() });
+            } else {
+                b.push(up(i, "r", "onlyB", 1));
+            }
+        }
+        let (na, nb) = (a.len(), b.len());
+        crate::util::block_on(crate::world::replicas::with_replica(&mut w.reps[0], crate::world::proxy::Ctl::new(), async |r| r.commit_operations(a).await)).expect("commit");
+        crate::util::block_on(crate::world::replicas::with_replica(&mut w.reps[1], crate::world::proxy::Ctl::new(), async |r| r.commit_operations(b).await)).expect("commit");
+        for i in 0..2 {
+            w.obs[i] = std::sync::Arc::new(obs_of(&mut w.reps[i]));
+        }
+        let res: Result<(), String> = (|| {
+            for &i in &order {
+                do_sync(&mut w, i, Urg::None, false, None, None).result.map_err(|e| format!("sync-failed: {e}"))?;
+            }
+            let (tasks, _) = quiesce(&w)?;
+            // the documented winners, independent of the order
+            for i in 0..600u32 {
+                let got = tasks.get(&t(i));
+                let deleted = (200..600).contains(&i) && i % 50 == 0;
+                if deleted {
+                    if got.is_some() {
+                        return Err(format!("wrong-winner: task {i} was deleted on one replica and must be gone, but holds {got:?}"));
+                    }
+                    continue;
+                }
+                let want_p = if i < 200 { "fromA" } else if i >= 500 { "fromB" } else if i < 350 { "fromA" } else { "fromB" };
+                let m = got.ok_or_else(|| format!("lost-task: task {i} is missing after both replicas synchronized"))?;
+                if m.get("p").map(|s| s.as_str()) != Some(want_p) || (i < 500) != m.contains_key("q") || (i >= 200) != m.contains_key("r") {
+                    return Err(format!("wrong-winner: task {i} ends as {m:?} (p should be {want_p})"));
+                }
+            }
+            Ok(())
+        })();
+        rep.add("many_small_operations_scenarios", 1);
+        rep.add("oracle_evaluations", 1);
+        if let Err(e) = res {
+            let class = e.split(':').next().unwrap_or("").to_string();
+            rep.violation(Violation::new(
+                format!("{class}:many-small-operations"),
+                format!("{e} [replica 0 with {na} pending operations on 500 tasks, replica 1 with {nb} on 400 tasks (300 shared), first syncs in order {order:?}]"),
+                json!({"kind": "c01-many-small-operations", "order": order}),
+            ));
+        }
+    }
+}
+
 pub fn run(opts: &Opts) -> i32 {
     let rep = Report::new("C01", "model_checking", opts);
     rep.set("exhaustive", true);
@@ -168,6 +239,9 @@ pub fn run(opts: &Opts) -> i32 {
         let starts = super::c02::start_states(2, if q { 4 } else { 5 }, small_updates(), 0, false);
         let deadline = std::time::Instant::now() + std::time::Duration::from_secs_f64((opts.budget_s - rep.elapsed()).max(5.0));
         super::c02::race_space("C01", &rep, opts, "R2-overlapping-syncs", &starts, super::syncworld::Urg::None, if q { 4 } else { 5 }, 2, deadline);
+    }
+    if opts.replay.is_none() && std::env::var("TCMC_SPACE").is_err() {
+        many_small_operations(&rep);
     }
     if opts.replay.is_none() && std::env::var("TCMC_SPACE").is_err() {
         // a never-synchronized replica that holds only pending operations meets a server that
